@@ -311,6 +311,13 @@ def check_threshold_floor(F, stages, O3):
         # the threshold: named local added to the heap key in the drain comparison `Lt(Add(key, T), recv)`
         thr = None
         conds = [E.switch_cond(blk) for blk in b.blocks if not blk.cleanup and blk.term.k == 'switch']
+        # the comparison stored into a bool first (`let old_enough = match buffer.peek() { Some(m) => key + T < recv, None => false }`)
+        for blk in b.blocks:
+            if blk.cleanup:
+                continue
+            for s_ in blk.stmts:
+                if s_.k == 'assign' and s_.rv['k'] == 'bin' and s_.rv['op'] in ('Lt', 'Le', 'Gt', 'Ge'):
+                    conds.append(E.rvalue(s_.rv))
         for (_cb, H, m) in release_helpers(F, b, cfg, E):
             hE = ExprBuilder(CFG(H), fold_named=True)
             conds += [subst(hE.switch_cond(blk), m) for blk in H.blocks if not blk.cleanup and blk.term.k == 'switch']
